@@ -190,3 +190,30 @@ PROPS["C08"] = dict(
                  "known finding F15: free-text strings with invalid UTF-8 are altered by the JSON export"],
     note="theorems about the code after fix a105331c (F10)",
 )
+
+PROPS["C17"] = dict(
+    module="Panacea.Properties.C17",
+    obligations=["Panacea.C17.validateBasic_never_panics", "Panacea.C17.did_validateBasic_never_panics",
+                 "Panacea.C17.signers_after_validation_never_panic", "Panacea.C17.did_deliver_never_panics",
+                 "Panacea.C17.aol_handle_never_panics_after_validation", "Panacea.C17.pnft_handle_never_panics",
+                 "Panacea.C17.decryptKey_never_panics", "Panacea.C17.aol_item_queries_never_panic",
+                 "Panacea.C17.paginate_panics_only_in_reverse_key_mode", "Panacea.C07.burn_endblock_send_never_fails"],
+    streams=[dict(name="totality", quick=1, thorough=1, thorough_seeds=1), dict(name="keystore", quick=300, thorough=5000, thorough_seeds=2),
+             dict(name="validate", quick=200, thorough=5000, thorough_seeds=2)],
+    trusted=["models of all entry points with every known partial Go operation as an explicit panic outcome (Validate, Did, Aol, Pnft, Paginate, Keystore)",
+             "totality stream: every query handler and ValidateBasic under recover() on absent requests/sub-messages, empty/over-long/invalid-UTF-8 strings, extreme integers and pagination; keystore stream: crafted key files through KeyStore.Load; model and implementation must agree on panic/no panic input by input",
+             "panic sources that were not modelled are visible to the streams only"],
+    assumptions=["AddrCodec decodes only to 1..255-byte addresses (sdk.VerifyAddressFormat) for the AOL handler theorem",
+                 "registry entries always carry a document pointer (Did.WF) for the DID pipeline theorem",
+                 "known finding F14: reverse pagination with key = last key panics inside the SDK's query.getIterator (Topics, Writers, Denoms)"],
+    note="C17 module imports C07 for the end-blocker totality statement",
+)
+PROPS["C20"] = dict(
+    module="Panacea.Properties.C20",
+    obligations=["Panacea.C20.good_step", "Panacea.C20.no_deadlock", "Panacea.C20.good_preserved",
+                 "Panacea.C20.keystore_threads_good", "Panacea.C20.keystore_never_deadlocks"],
+    streams=[dict(name="kslock", quick=1, thorough=1, thorough_seeds=1)],
+    trusted=["hand-written Lean model of Go's writer-preferring sync.RWMutex and of the lock operations of KeyStore.Save/Load/LoadByAddress (Panacea/Model/Keystore.lean); the lock-operation sequences per method are checked against the source by the fact extractor (Generated facts) and the kslock stream runs 6 loaders + 6 savers under a watchdog on the real code",
+             "query snapshot isolation is a theorem of the App model only (Properties/C10); the real baseapp behaviour and Go data-race freedom cannot be exhibited by a model (partial)"],
+    assumptions=["partial: data races in Go memory and baseapp's query snapshots are outside any executable model here"],
+)
